@@ -591,8 +591,15 @@ func genNGRule(r *rng) [][]lterm {
 	} else {
 		body.card = "+?"
 	}
-	seq = append(seq, body)
 	term := pick(r, [][]int{{'*', '/'}, {'"'}, {'a', 'a'}, {'a', 'b', 'a'}, {'x'}, {'x', 'y'}})
+	if r.chance(1, 5) {
+		// the body is exactly the terminator's (repeated) character: [a]*? 'aa' — the accepting state then has a
+		// single outgoing range
+		ch := pick(r, []int{'a', '"', 'x', '*'})
+		body.re = &lre{kind: 1, class: &classExpr{items: [][2]int{{ch, ch}}}}
+		term = pick(r, [][]int{{ch}, {ch, ch}, {ch, ch, ch}})
+	}
+	seq = append(seq, body)
 	seq = append(seq, lterm{re: &lre{kind: 0, lit: term}})
 	return [][]lterm{seq}
 }
@@ -743,6 +750,61 @@ func (s *lspec) genInput(r *rng) []byte {
 		default:
 			out = append(out, 0xC3)
 		}
+	}
+	return out
+}
+
+// genInputErrorInMode: enter a mode through a rule of the default mode that pushes one, provoke a lexical error
+// there (the driver skips the rest of the line and calls Reset), then push and pop again and go on in the
+// default mode — everything the state machine remembers about modes across an error is exercised.
+func (s *lspec) genInputErrorInMode(r *rng) []byte {
+	macros := s.macros()
+	var pushers, plain []*lrule
+	for _, it := range s.items {
+		if it.rule == nil {
+			continue
+		}
+		isPush := false
+		for _, a := range it.rule.acts {
+			if a.kind == "push" {
+				isPush = true
+			}
+		}
+		if isPush {
+			pushers = append(pushers, it.rule)
+		} else {
+			plain = append(plain, it.rule)
+		}
+	}
+	if len(pushers) == 0 {
+		return s.genInput(r)
+	}
+	var cps []int
+	sample := func(rs []*lrule) {
+		if len(rs) > 0 {
+			s.sampleAlts(r, pick(r, rs).alts, macros, 0, &cps)
+		}
+	}
+	sample(pushers)
+	for k := r.intn(2); k > 0; k-- {
+		sample(pushers)
+	}
+	cps = append(cps, pick(r, []int{0x1F600, 0x01, '~', '#', 0x20AC}), pick(r, lexAlphabet), '\n')
+	for round := 1 + r.intn(2); round > 0; round-- {
+		sample(pushers)
+		if r.chance(1, 2) {
+			cps = append(cps, pick(r, lexAlphabet))
+		}
+		cps = append(cps, '}')
+		sample(plain)
+		if r.chance(1, 2) {
+			cps = append(cps, ' ')
+			sample(plain)
+		}
+	}
+	var out []byte
+	for _, c := range cps {
+		out = utf8.AppendRune(out, rune(c))
 	}
 	return out
 }
